@@ -1,20 +1,32 @@
 #!/usr/bin/env python3
 """applies every seeded change in turn to /repo, runs the property's check (quick tier), records in seeded/<id>/meta.json which obligations reported a
-reproduced violation, and restores /repo.  Usage: tools/seed_sweep.py [ids...]"""
+reproduced violation, and restores /repo.  Usage: tools/seed_sweep.py [--copy] [ids...]
+With --copy the change is applied to a scratch worktree of /repo's HEAD (outside /repo and /verif, removed at the end) and the check is pointed at it
+(PYG_BASE_REPO / PYTHONPATH), its evidence and replays going to a scratch directory, so that /repo and /verif/evidence stay untouched."""
 import json, os, subprocess, sys, glob, re
 ROOT = os.path.dirname(os.path.dirname(os.path.abspath(__file__)))
-ids = sys.argv[1:] or sorted(os.path.basename(os.path.dirname(p)) for p in glob.glob(os.path.join(ROOT, 'seeded', '*', 'meta.json')))
+COPY = '--copy' in sys.argv[1:]
+argv = [a for a in sys.argv[1:] if a != '--copy']
+ids = argv or sorted(os.path.basename(os.path.dirname(p)) for p in glob.glob(os.path.join(ROOT, 'seeded', '*', 'meta.json')))
+REPO = '/repo'; ENV = dict(os.environ)
+if COPY:
+    import tempfile, atexit
+    REPO = tempfile.mkdtemp(prefix = 'seedsweep.', dir = '/tmp'); os.rmdir(REPO)
+    subprocess.run(['git', '-C', '/repo', 'worktree', 'add', '-q', '--detach', REPO, 'HEAD'], check = True)
+    OUTDIR = tempfile.mkdtemp(prefix = 'seedsweep-out.', dir = '/tmp')
+    atexit.register(lambda: (subprocess.run(['git', '-C', '/repo', 'worktree', 'remove', '--force', REPO]), subprocess.run(['rm', '-rf', OUTDIR])))
+    ENV.update(PYG_BASE_REPO = REPO, PYTHONPATH = os.path.join(REPO, 'src'), VERIF_OUT = OUTDIR)
 claimed = {c['property_id'] for c in json.load(open(os.path.join(ROOT, 'MANIFEST.json')))['checks']}
 for sid in ids:
     pid = sid[:3]; mp = os.path.join(ROOT, 'seeded', sid, 'meta.json'); meta = json.load(open(mp))
     if pid not in claimed:
         meta['detected_by'] = dict(detected = False, why = 'property %s is not claimed (not applicable)' % pid); json.dump(meta, open(mp, 'w'), indent = 1); print(sid, 'not claimed'); continue
-    if subprocess.run(['git', '-C', '/repo', 'diff', '--quiet']).returncode: sys.exit('/repo has local changes')
-    if subprocess.run(['git', '-C', '/repo', 'apply', os.path.join(ROOT, 'seeded', sid, 'patch.diff')]).returncode: print(sid, 'PATCH DOES NOT APPLY'); continue
+    if subprocess.run(['git', '-C', REPO, 'diff', '--quiet']).returncode: sys.exit('/repo has local changes')
+    if subprocess.run(['git', '-C', REPO, 'apply', os.path.join(ROOT, 'seeded', sid, 'patch.diff')]).returncode: print(sid, 'PATCH DOES NOT APPLY'); continue
     try:
-        p = subprocess.run([os.path.join(ROOT, 'bin', 'check'), pid, '--tier', 'quick'], capture_output = True, text = True, cwd = ROOT)
+        p = subprocess.run([os.path.join(ROOT, 'bin', 'check'), pid, '--tier', 'quick'], capture_output = True, text = True, cwd = ROOT, env = ENV)
     finally:
-        subprocess.run(['git', '-C', '/repo', 'checkout', '--', '.'])
+        subprocess.run(['git', '-C', REPO, 'checkout', '--', '.'])
     viol = re.findall(r'VIOLATION property=\S+ replay=\S+ obligation=(\S+) check=(.*)', p.stdout)
     meta['detected_by'] = dict(detected = bool(viol), exit_code = p.returncode, command = 'bin/check %s --tier quick (with the patch applied to /repo)' % pid,
                                obligations = sorted(set(o for o, _ in viol))[:12], checks_failed = sorted(set(c for _, c in viol))[:6], repo_head = subprocess.run(['git', '-C', '/repo', 'rev-parse', '--short', 'HEAD'], capture_output = True, text = True).stdout.strip())
